@@ -163,10 +163,21 @@ class Property(css_parser.util.Base):
                                 self._valuestr(cssText), colontoken)
 
             if wellformed:
-                self.wellformed = True
-                self.name = nametokens
-                self.propertyValue = valuetokens
-                self.priority = prioritytokens
+                # name, value and priority are set one after the other and each
+                # may be rejected: keep the old state to fall back to
+                saved = dict(self.__dict__, seqs=list(self.seqs))
+                oldvalue = self.seqs[1]  # is updated in place
+                savedvalue = dict(oldvalue.__dict__)
+                try:
+                    self.wellformed = True
+                    self.name = nametokens
+                    self.propertyValue = valuetokens
+                    self.priority = prioritytokens
+                except Exception:
+                    oldvalue.__dict__.clear()
+                    oldvalue.__dict__.update(savedvalue)
+                    self.__dict__.update(saved)
+                    raise
                 if not self._literalpriority and [
                         t for t in prioritytokens
                         if self._type(t) not in ('S', 'COMMENT', 'EOF')]:
